@@ -898,3 +898,168 @@ Proof.
   intros ops H. eapply Collection_proofs.forallb_Forall; [|exact H]. intros [nm|sid d m|sid d m| |sid raw] Ho; try exact I.
   apply N.ltb_lt. exact Ho.
 Qed.
+
+(* ================================================================ 6. from FASTA text (C16 / C19, Fasta.v) *)
+From Ragc Require Fasta Fasta_proofs.
+
+(* what create hands to the compressor, grouped the way the catalogue groups it: the inner part of Fasta.create_view *)
+Definition text_stream (files : list (list N * list N)) : outcome (list Fasta.contig3) :=
+  match files with
+  | [(fname, text)] => Fasta.stream_single fname text
+  | _ => Fasta.stream_multi files
+  end.
+Definition text_samples (files : list (list N * list N)) : outcome (list (list N * list (list N * list N))) :=
+  obnd (text_stream files) (Fasta.collect []).
+
+Lemma create_view_text_samples : forall files,
+  Fasta.create_view files =
+  obnd (text_samples files) (fun arch =>
+    Ok (map (fun sc => (fst sc, map (fun nc => (fst nc, Fasta.out_letters (snd nc))) (snd sc))) arch)).
+Proof.
+  intro files. unfold Fasta.create_view, text_samples, text_stream.
+  destruct files as [|[f t] [|x r]]; cbn [obnd];
+    match goal with |- obnd ?s _ = _ => destruct s; reflexivity end.
+Qed.
+
+Lemma add_contig_inv : forall arch s n c a, Fasta.add_contig arch (s, n, c) = Some a ->
+  ((In s (map fst arch) /\ map fst a = map fst arch) \/ (~ In s (map fst arch) /\ map fst a = map fst arch ++ [s])) /\
+  (Forall (fun sc => snd sc <> []) arch -> Forall (fun sc => snd sc <> []) a) /\
+  (forall s' l' x, In (s', l') a -> In x l' -> (exists l0, In (s', l0) arch /\ In x l0) \/ (s' = s /\ x = (n, c))).
+Proof.
+  induction arch as [|[s0 cs0] arch IH]; intros s n c a H.
+  - cbn in H. inversion H; subst. split; [right; split; [intros []|reflexivity]|]. split.
+    + intros _. constructor; [discriminate|constructor].
+    + intros s' l' x [E|[]] Hx. inversion E; subst. destruct Hx as [<-|[]]. right. auto.
+  - cbn [Fasta.add_contig] in H. destruct (Fasta.bytes_eqb s0 s) eqn:E0.
+    + destruct (existsb (fun x => Fasta.bytes_eqb (fst x) n) cs0); [discriminate|]. inversion H; subst a; clear H.
+      apply Fasta_proofs.list_eqb_eq in E0. subst s0. split; [left; split; [left; reflexivity|reflexivity]|]. split.
+      * intro F. inversion F; subst. constructor; [|assumption]. cbn [snd]. destruct cs0; discriminate.
+      * intros s' l' x [E|Hin] Hx.
+        -- inversion E; subst. apply in_app_or in Hx. destruct Hx as [Hx|[<-|[]]]; [|right; auto].
+           left. exists cs0. split; [left; reflexivity|exact Hx].
+        -- left. exists l'. split; [right; exact Hin|exact Hx].
+    + destruct (Fasta.add_contig arch (s, n, c)) as [a'|] eqn:A; [|discriminate]. inversion H; subst a; clear H.
+      destruct (IH s n c a' A) as (I1 & I2 & I3).
+      assert (Hne : s0 <> s) by (intro; subst; rewrite Fasta_proofs.bytes_eqb_refl in E0; discriminate).
+      split; [|split].
+      * cbn [map fst]. destruct I1 as [[Hi Em]|[Hi Em]]; [left|right]; rewrite Em; (split; [|reflexivity]).
+        -- right. exact Hi.
+        -- intros [E|Hx]; [exact (Hne E)|exact (Hi Hx)].
+      * intro F. inversion F; subst. constructor; [assumption|apply I2; assumption].
+      * intros s' l' x [E|Hin] Hx.
+        -- inversion E; subst. left. exists l'. split; [left; reflexivity|exact Hx].
+        -- destruct (I3 s' l' x Hin Hx) as [(l0 & H0 & Hx0)|R]; [|right; exact R].
+           left. exists l0. split; [right; exact H0|exact Hx0].
+Qed.
+
+Lemma collect_inv : forall cs arch a, Fasta.collect arch cs = Ok a ->
+  NoDup (map fst arch) -> Forall (fun sc => snd sc <> []) arch ->
+  NoDup (map fst a) /\ Forall (fun sc => snd sc <> []) a /\
+  (forall s l n c, In (s, l) a -> In (n, c) l -> (exists l0, In (s, l0) arch /\ In (n, c) l0) \/ In (s, n, c) cs).
+Proof.
+  induction cs as [|[[s n] c] cs IH]; intros arch a H ND NE; cbn [Fasta.collect] in H.
+  - inversion H; subst. split; [exact ND|]. split; [exact NE|]. intros s l n c H1 H2. left. exists l. auto.
+  - destruct (Fasta.add_contig arch (s, n, c)) as [a1|] eqn:A; [|discriminate].
+    destruct (add_contig_inv arch s n c a1 A) as (I1 & I2 & I3).
+    assert (ND1 : NoDup (map fst a1)).
+    { destruct I1 as [[_ ->]|[Hn ->]]; [exact ND|]. apply Container_proofs.NoDup_app_one; assumption. }
+    destruct (IH a1 a H ND1 (I2 NE)) as (J1 & J2 & J3). split; [exact J1|]. split; [exact J2|].
+    intros s' l n' c' H1 H2. destruct (J3 s' l n' c' H1 H2) as [(l0 & H0 & Hx)|R]; [|right; right; exact R].
+    destruct (I3 s' l0 (n', c') H0 Hx) as [L|[-> E]]; [left; exact L|]. inversion E; subst. right. left. reflexivity.
+Qed.
+
+Lemma stream_multi_in : forall files cs x, Fasta.stream_multi files = Ok cs -> In x cs ->
+  exists f t rs, In (f, t) files /\ Fasta.contig_stream f t = Ok rs /\ In x rs.
+Proof.
+  induction files as [|[f0 t0] fs IH]; intros cs x H Hx; cbn [Fasta.stream_multi] in H.
+  - inversion H; subst. contradiction.
+  - destruct (Fasta.contig_stream f0 t0) as [a| |] eqn:E0; destruct (Fasta.stream_multi fs) as [b0| |] eqn:E1;
+      cbn [Fasta.oapp] in H; try discriminate.
+    inversion H; subst cs. apply in_app_or in Hx. destruct Hx as [Hx|Hx].
+    + exists f0, t0, a. split; [left; reflexivity|]. auto.
+    + destruct (IH b0 x eq_refl Hx) as (f & t & rs & Hf & Hs & Hr). exists f, t, rs. split; [right; exact Hf|]. auto.
+Qed.
+
+Lemma contig_stream_codes : forall f t rs s n codes, Fasta.contig_stream f t = Ok rs -> In (s, n, codes) rs ->
+  Forall (fun c => c <= 30) codes /\ codes <> [].
+Proof.
+  intros f t rs s n codes H Hin. unfold Fasta.contig_stream, Fasta.pushed in H.
+  destruct (Fasta.parse t) as [rs0| |] eqn:P; cbn [obnd] in H; try discriminate. inversion H; subst rs; clear H.
+  apply in_map_iff in Hin. destruct Hin as ([id cd] & E & Hr). cbn [fst snd] in E. inversion E; subst; clear E.
+  unfold Fasta.nonempty_contigs in Hr. apply filter_In in Hr. destruct Hr as [Hr Hne]. cbn [snd] in Hne. split.
+  - apply Forall_forall. intros c Hc. destruct (Fasta_proofs.code_range_parse t rs0 n codes c P Hr Hc); lia.
+  - destruct codes; [discriminate|discriminate].
+Qed.
+
+Lemma text_stream_codes : forall files cs s n codes, text_stream files = Ok cs -> In (s, n, codes) cs ->
+  Forall (fun c => c <= 30) codes /\ codes <> [].
+Proof.
+  intros files cs s n codes H Hin.
+  assert (Hm : forall fs, Fasta.stream_multi fs = Ok cs -> Forall (fun c => c <= 30) codes /\ codes <> []).
+  { intros fs Hs. destruct (stream_multi_in fs cs _ Hs Hin) as (f & t & rs & _ & Hc & Hr).
+    exact (contig_stream_codes f t rs s n codes Hc Hr). }
+  unfold text_stream in H. destruct files as [|[f t] [|x r]]; try (apply (Hm _ H)).
+  unfold Fasta.stream_single in H. destruct (Fasta.contig_stream f t) as [rs| |] eqn:E; cbn [obnd] in H; try discriminate.
+  destruct (Fasta.sorted_go None [] rs); [|discriminate]. inversion H; subst cs.
+  exact (contig_stream_codes f t rs s n codes E Hin).
+Qed.
+
+(* the sample set create builds from FASTA text meets the input hypotheses of grand_roundtrip that do not concern lengths
+   or the emptiness of a sample name: distinct sample names, no sample without contigs, no empty contig, codes 0..30 *)
+Lemma text_samples_shape : forall files arch, text_samples files = Ok arch ->
+  NoDup (map fst arch) /\ Forall (fun sc => snd sc <> []) arch /\
+  (forall s c data, In (s, c, data) (pushes_of arch) -> Forall (fun x => x <= 30) data /\ data <> []).
+Proof.
+  intros files arch H. unfold text_samples in H. destruct (text_stream files) as [cs| |] eqn:E; cbn [obnd] in H; try discriminate.
+  destruct (collect_inv cs [] arch H (NoDup_nil _) (Forall_nil _)) as (J1 & J2 & J3). split; [exact J1|]. split; [exact J2|].
+  intros s c data Hp. apply Pipeline_proofs.pushes_keys in Hp. destruct Hp as (sm & ct & Hs & Hc & Ep). inversion Ep; subst; clear Ep.
+  destruct sm as [sn l]. destruct ct as [cn cd]. cbn [fst snd] in *.
+  destruct (J3 sn l cn cd Hs Hc) as [(l0 & [] & _)|Hin]. exact (text_stream_codes files cs sn cn cd E Hin).
+Qed.
+
+Section GrandText.
+  Variable zc : N -> list N -> list N.
+  Variable zd : list N -> option (list N).
+  Hypothesis Hzd : forall l x, zd (zc l x) = Some x.
+  Hypothesis Hzc : forall l x, zc l x <> [].
+  Variable ecn : Pipeline.name -> Pipeline.name.
+  Variables (k mml segsize level : N).
+  Variable spl : N -> bool.
+  Variable dec : nat -> nat -> decision.
+  Variable grp : nat -> nat -> N.
+  Variable sched : list registration -> list registration.
+  Variable gops : list op.
+  Variable fti : Container.item.
+  Variable files : list (list N * list N).
+  Variable arch : list (list N * list (list N * list N)).
+  Hypothesis Hk : 1 <= k <= 32.
+  Hypothesis Hmml : 4 <= mml.
+  Hypothesis Hm32 : mml < two32.
+  Hypothesis Hs32 : segsize < two32.
+  Hypothesis Hssk : segsize + k <= 2147483648.
+  Hypothesis Htext : text_samples files = Ok arch.
+  Hypothesis Hnames : Forall (fun s => fst s <> []) arch.
+  Hypothesis Hlens : forall s c data, In (s, c, data) (pushes_of arch) -> 2 * lenN data + mml < 2147483648.
+  Hypothesis Hdec : decisions_ok k spl segsize dec (pushes_of arch).
+  Hypothesis Hgrp : forall i part, grp i part < two32.
+  Hypothesis Hsched : forall l, Permutation l (sched l).
+  Hypothesis Hcarry : ops_carry (all_emit k spl segsize dec grp 0 (pushes_of arch)) gops.
+  Variable b : built.
+  Hypothesis Hb : model_build zc ecn k mml segsize level spl dec grp sched gops fti arch = Ok b.
+  Hypothesis Hcat : catalogue_in_dom zc segsize k (mc_cat_of (b_coll b)).
+  Hypothesis Hmeta : parts_meta_u64 (b_wops b).
+  Hypothesis Hfile : lenN (b_file b) <= spec_max_off.
+
+  Theorem text_roundtrip_proof :
+    decode zd (b_file b) = Ok arch /\
+    Fasta.create_view files =
+      Ok (map (fun sc => (fst sc, map (fun nc => (fst nc, Fasta.out_letters (snd nc))) (snd sc))) arch).
+  Proof.
+    destruct (text_samples_shape files arch Htext) as (ND & NE & Hcodes). split.
+    - apply (grand_roundtrip_proof zc zd Hzd Hzc ecn k mml segsize level spl dec grp sched gops fti arch); try assumption.
+      + split; [exact ND|]. apply Forall_forall. intros s Hs. rewrite Forall_forall in Hnames, NE. split; [exact (Hnames s Hs)|exact (NE s Hs)].
+      + intros s c data Hp. split; [exact (proj1 (Hcodes s c data Hp))|exact (Hlens s c data Hp)].
+      + intros i s c data part Hn _. exact (proj2 (Hcodes s c data (nth_error_In _ _ Hn))).
+    - rewrite create_view_text_samples, Htext. reflexivity.
+  Qed.
+End GrandText.
